@@ -183,6 +183,7 @@ def run_c15(tier, seed):
     res = vlib.run_resumable(binary, ["--prop", "c15", "--seed", str(seed), "--cases", str(9 if tier == "quick" else 225)], 12,
                              timeout=600 if tier == "quick" else 7200, work=work)
     counters, distinct, samples, stats = vlib.collect_runs(v, res, only_prefix="c15:")
+    _late_loops_pass(v, work, "client", ["--prop", "c15", "--seed", str(seed + 73), "--cases", str(3 if tier == "quick" else 60)], 6, tier, stats, distinct, delay=15, only_prefix="c15:")
     v.assumptions += ["the server is a scripted raw TCP server written in the harness; every request/response carries a unique tag",
                       "a batch is judged when all promises are settled or the server has been idle for 3 s x load; every batch runs in a forked child under a 25 s x load watchdog (a wedged client is a witness)",
                       "Experimental::Client has no pipelining and cannot resume a partial send: request bodies stay below the socket buffer"]
